@@ -472,6 +472,9 @@ func genSpec(r *simk.Rand, i, np int, focus, algo string) BSpec {
 	if algo == "binary_spray" && !sp.local() && r.Bool(0.7) {
 		sp.Spray = r.Pick(1, 1, 2, 3, 4, 7, 8)
 	}
+	if rn := simk.NewRand(uint64(r.Intn(1<<30)), "renumber"); focus == "C06" && !sp.local() && rn.Bool(0.3) {
+		sp.Renumber = true
+	}
 	// C15: "fragments and whole bundles" - a bundle in transit may be a fragment of a larger one (one fragment per
 	// bundle ID; never for a destination on this node, where fragments would wait for reassembly)
 	if rf := simk.NewRand(uint64(r.Intn(1<<30)), "fragment"); focus == "C15" && !sp.local() && !strings.HasPrefix(sp.Dst, simNodeEID) && sp.Flags&fAdmin == 0 && rf.Bool(0.25) {
